@@ -41,14 +41,14 @@ type Hdr struct {
 
 // Msg is one message of a seed exchange.
 type Msg struct {
-	Name   string
-	Data   []byte
-	Fields []Field
-	Hdrs   []Hdr
-	Conn   int  // index of the connection (tcp/tls) the message is written to
-	Stream int  // moq: 0 = unidirectional stream, 1 = bidirectional stream
-	Covered bool // the single-message mutants of this message are enumerated under another seed with the same prefix
-	PauseMs int  // pause before sending (ordering between connections)
+	Name     string
+	Data     []byte
+	Fields   []Field
+	Hdrs     []Hdr
+	Conn     int  // index of the connection (tcp/tls) the message is written to
+	Stream   int  // moq: 0 = unidirectional stream, 1 = bidirectional stream
+	Covered  bool // the single-message mutants of this message are enumerated under another seed with the same prefix
+	PauseMs  int  // pause before sending (ordering between connections)
 	WaitResp bool // before sending, wait (bounded) until the server has answered something on this connection
 }
 
